@@ -1,5 +1,6 @@
 \* trace validation: 5 sources over 5 labels per trace (the descriptors travel with the trace)
 CONSTANTS NSrc = 5  NLab = 5  Fissile = {1, 2, 4}  MaxLevel = 999  SrcList = {}
+CONSTANT IdOf <- IdOf5
 SPECIFICATION TSpec
 CONSTRAINT Progress
 POSTCONDITION Report
